@@ -130,15 +130,15 @@ Section Read.
       assert (Hj : nth_error kids j0 = Some c) by (specialize (Hsub 0%nat c eq_refl); rewrite Nat.add_0_r in Hsub; exact Hsub).
       rewrite (mrr_info_kid p m dl kids j0 c Hp Hj).
       rewrite IHk by (intros i c' Hi; specialize (Hsub (S i) c' Hi); replace (S j0 + i)%nat with (j0 + S i)%nat by lia; exact Hsub).
+      destruct (mrr_rd_fields (mrr_kid_spec t L (p ++ [j0]) c)) as (F1 & F2 & F3 & F4). cbv beta in F1, F2, F3, F4.
+      rewrite F1, F2, F3, F4.
       destruct c as [cm len|cm cdl ckids].
       - reflexivity.
       - assert (Hc : mrr_node_at t (p ++ [j0]) = Some (RDir cm cdl ckids))
           by (rewrite (mrr_node_at_snoc p j0 t _ Hp); exact Hj).
         pose proof (mrr_height_kid m dl kids j0 _ Hj) as Hk.
-        change (Master.ms_rec_is_dir (rd (mrr_kid_spec t L (p ++ [j0]) (RDir cm cdl ckids)))) with true.
-        cbv iota. change (extent (rd (mrr_kid_spec t L (p ++ [j0]) (RDir cm cdl ckids)))) with (Master.ms_ext_at DB (p ++ [j0])).
-        change (data_len (rd (mrr_kid_spec t L (p ++ [j0]) (RDir cm cdl ckids)))) with cdl.
-        Show. rewrite (IH (p ++ [j0]) cm cdl ckids Hc) by lia.
+        cbn [mrr_kid_spec rs_fl rs_ext rs_len rs_nm meta_of]. change (flag_set 2 1) with true. cbv iota.
+        rewrite (IH (p ++ [j0]) cm cdl ckids Hc) by lia.
         rewrite mrr_vnode_dir. reflexivity. }
     apply (G kids 0%nat). intros i c Hi. exact Hi.
   Qed.
